@@ -213,6 +213,166 @@ def specElement (cfg : ECfg) (F : Nat) (p : ElemStmts) (ip : InnerSpec) (body : 
   switchOf cfg al2 p.switch <|
   innerOf cfg F ip body al2
 
+/-! ## the other statements: i18n settings, METAL, `i18n:name`, `tal:on-error`
+
+With these every element is covered (`specFull`).  Three things stay opaque, i.e. are rendered by the interpreter itself on
+both sides: a `metal:use-macro`/`extend-macro` element (`useOf`), the in-place use of a macro the element defines
+(`macroOf`: the macro's body is looked up by name at render time), and a static `i18n:translate` with its collected
+names (`contentFullOf`). -/
+
+/-- `i18n:domain`: in force while the element renders, then the previous one again -/
+def domainOf (d : Option Tok) (k : RM Unit) : RM Unit :=
+  match d with
+  | none => k
+  | some cl => do
+    let s ← mGet
+    let old := s.env.topFrame.domain
+    modFrame (fun fr => { fr with domain := some cl.str })
+    k
+    modFrame (fun fr => { fr with domain := old })
+
+/-- `i18n:context` -/
+def contextOf (c : Option Tok) (k : RM Unit) : RM Unit :=
+  match c with
+  | none => k
+  | some cl => do
+    let s ← mGet
+    let old := s.env.topFrame.context
+    modFrame (fun fr => { fr with context := some cl.str })
+    k
+    modFrame (fun fr => { fr with context := old })
+
+/-- `i18n:target`: the expression may use `default` for the current target language -/
+def targetOf (cfg : ECfg) (al : List (Str × Val)) (t : Option Tok) (k : List (Str × Val) → RM Unit) : RM Unit :=
+  match t with
+  | none => k al
+  | some cl => do
+    let cur ← enVal cfg al (.pyName (lit "target_language"))
+    let al' := (lit "default", cur) :: al
+    let s ← mGet
+    let old := s.env.topFrame.targetLang
+    let v ← enVal cfg al' (.value cl)
+    modFrame (fun fr => { fr with targetLang := v })
+    setVar (lit "target_language") v
+    k al'
+    modFrame (fun fr => { fr with targetLang := old })
+    setVar (lit "target_language") old
+
+/-- `metal:define-slot`: the caller's filler (run as a callee: enter, render, leave) when there is one, else the element -/
+def slotOf (cfg : ECfg) (F : Nat) (ds : Option Tok) (k : RM Unit) : RM Unit :=
+  match ds with
+  | none => k
+  | some nm => fun s =>
+    match lookupAssoc s.env.topFrame.slotFns (mangleName nm.str) with
+    | some (some cid) =>
+      match s.closures[cid]? with
+      | none => .unsupported "unknown slot closure"
+      | some cl =>
+        match eval cfg cl.al F cl.node (fillerEnter cl s) with
+        | .ok () s' => .ok () (fillerLeave s s')
+        | .raised ex s' => .raised ex (fillerRaise s s')
+        | .unsupported w => .unsupported w
+    | _ => k s
+
+/-- `i18n:name`: the element renders into a stream of its own; the placeholder goes to the output, the markup to the mapping -/
+def nameOf (n : Option Tok) (k : RM Unit) : RM Unit :=
+  match n with
+  | none => k
+  | some nm => do
+    pushStream
+    k
+    let v ← popStream
+    emit (lit "${" ++ nm.str ++ lit "}")
+    setTName nm.str v
+
+/-- `tal:on-error`: if the element raises an `Exception`, what it emitted is cut off, `error` is bound, the handler is
+counted, the records of the failure are dropped, and the fallback renders in its place -/
+def onErrorOf (cfg : ECfg) (id : Nat) (fallback : RM Unit) (k : RM Unit) : RM Unit := fun s =>
+  let key := if cfg.tc.q.sharedFallbackVar then 0 else id
+  let savedLen := (s.streams.headD []).length
+  let depth := s.streams.length
+  let s1 : RState := { s with env := match s.env.frames with
+    | fr :: rest => { s.env with frames := { fr with saved := (key, savedLen) :: fr.saved.filter (·.1 != key) } :: rest }
+    | [] => s.env }
+  match k s1 with
+  | .ok () s' => .ok () s'
+  | .unsupported w => .unsupported w
+  | .raised ex s' =>
+    if !isSubclass cfg ex.cls ["Exception"] then .raised ex s'
+    else match onErrorHandle cfg key depth savedLen ex s' with
+      | none => .unsupported "unreachable: the handler always runs"
+      | some s2 => fallback { s2 with tmaps := s2.tmaps.drop (s2.tmaps.length - s.tmaps.length),
+                                      errs := s2.errs.extract 0 s.errs.size }
+
+/-- the children / `tal:content`; a static `i18n:translate` around them is rendered by the interpreter -/
+def contentFullOf (cfg : ECfg) (F : Nat) (ip : InnerSpec) (bodyNode : Node) (body : List (Str × Val) → RM Unit)
+    (al : List (Str × Val)) : RM Unit :=
+  match ip.translate with
+  | none => contentOf cfg ip body al
+  | some _ => eval cfg al F (ip.contentNode bodyNode)
+
+def taggedFullOf (cfg : ECfg) (F : Nat) (ip : InnerSpec) (bodyNode : Node) (body : List (Str × Val) → RM Unit)
+    (al : List (Str × Val)) : RM Unit :=
+  if ip.omitAlways then contentFullOf cfg F ip bodyNode body al
+  else match ip.omitExpr with
+    | some (oid, cl) => do
+      let v ← enVal cfg al (.negate (.value cl))
+      setCache oid v
+      let shown := do
+        let c ← liftX (fun env => evalCond cfg al env 16 (.e (.ref oid)))
+        vTruthy cfg c
+      let b1 ← shown
+      (if b1 then eval cfg al F ip.startTag else pure ())
+      contentFullOf cfg F ip bodyNode body al
+      match ip.endTag with
+      | some e => do
+        let b2 ← shown
+        (if b2 then eval cfg al F e else pure ())
+      | none => pure ()
+    | none => do
+      eval cfg al F ip.startTag
+      contentFullOf cfg F ip bodyNode body al
+      match ip.endTag with
+      | some e => eval cfg al F e
+      | none => pure ()
+
+def innerFullOf (cfg : ECfg) (F : Nat) (p : ElemStmts) (slots : List (Tok × Node)) (bodyNodes : List Node)
+    (body : List (Str × Val) → RM Unit) (al : List (Str × Val)) : RM Unit :=
+  match p.kind with
+  | .macroUse _ _ => eval cfg al F (p.innerNode slots bodyNodes)          -- a macro use: opaque here (C09)
+  | .tal ip =>
+    match ip.replace with
+    | none => taggedFullOf cfg F ip (.seq bodyNodes) body al
+    | some r => insertOr cfg al r (taggedFullOf cfg F ip (.seq bodyNodes) body)
+
+/-- the element renders the in-place use of the macro it defines (looked up by name when rendering) -/
+def macroOf (cfg : ECfg) (F : Nat) (al : List (Str × Val)) (dm : Option Tok) (k : RM Unit) : RM Unit :=
+  match dm with
+  | none => k
+  | some cl => eval cfg al F (.useInternal (some cl.str))
+
+/-- **the statement semantics of any element**: `tal:on-error` around `i18n:name` around (the in-place use of a defined
+macro, or) `metal:define-slot` around the definitions, the guards, repetition, the switch value, the i18n settings and
+the inner part -/
+def specFull (cfg : ECfg) (F : Nat) (p : ElemStmts) (oid : Nat) (slots : List (Tok × Node)) (bodyNodes : List Node)
+    (al : List (Str × Val)) : RM Unit :=
+  let core : RM Unit :=
+    nameOf p.name <|
+    macroOf cfg F al p.defineMacro <|
+    slotOf cfg F p.defineSlot <|
+    definesOf cfg p.assigns al [] fun al1 =>
+    caseOf cfg al1 p.case_ fun al2 =>
+    conditionOf cfg al2 p.condition <|
+    repeatOf cfg al2 p.repeat_ <|
+    switchOf cfg al2 p.switch <|
+    domainOf p.domain <|
+    contextOf p.context <|
+    targetOf cfg al2 p.target fun al3 =>
+    innerFullOf cfg F p slots bodyNodes (fun al' => evalList cfg al' F bodyNodes) al3
+  match p.onError with
+  | none => core
+  | some (st, expr) => onErrorOf cfg oid (eval cfg al F (p.fallback st expr)) core
+
 /-- the elements the semantics covers: no METAL, no i18n, no `tal:on-error` -/
 def talOnly (p : ElemStmts) (ip : InnerSpec) : Prop :=
   p.kind = .tal ip ∧ ip.translate = none ∧ p.defineSlot = none ∧ p.domain = none ∧ p.context = none ∧ p.target = none ∧
